@@ -138,6 +138,14 @@ func (c *Classifier) match(in io.Reader) (Results, error) {
 	}
 	sort.Sort(candidates)
 	retain := make([]bool, len(candidates))
+	// byLine lists, for every line, the candidates seen so far that cover it.
+	// Only those of them that share a line with c can contain or overlap c,
+	// and the decision taken for c doesn't depend on the order in which they
+	// are looked at: comparing c with all earlier candidates takes time that
+	// is quadratic in the number of candidates, and an input can have one
+	// candidate per line.
+	byLine := make(map[int][]int)
+	lastSeenBy := make([]int, len(candidates))
 	for i, c := range candidates {
 		// Filter out overlapping licenses based primarily on confidence. Since
 		// the candidates slice is ordered by confidence, we look for overlaps and
@@ -153,10 +161,17 @@ func (c *Classifier) match(in io.Reader) (Results, error) {
 
 		keep := true
 		proposals := make(map[int]bool)
-		for j, o := range candidates {
-			if j == i {
-				break
+		var earlier []int
+		for l := c.StartLine; l <= c.EndLine; l++ {
+			for _, j := range byLine[l] {
+				if lastSeenBy[j] != i+1 {
+					lastSeenBy[j] = i + 1
+					earlier = append(earlier, j)
+				}
 			}
+		}
+		for _, j := range earlier {
+			o := candidates[j]
 			// Make sure to only check containment on licenses that are still in consideration at this point.
 			if contains(c, o) && retain[j] {
 				// The license here can override a previous detection, but that isn't sufficient to be kept
@@ -194,6 +209,9 @@ func (c *Classifier) match(in io.Reader) (Results, error) {
 			for p, v := range proposals {
 				retain[p] = v
 			}
+		}
+		for l := c.StartLine; l <= c.EndLine; l++ {
+			byLine[l] = append(byLine[l], i)
 		}
 	}
 
